@@ -532,6 +532,29 @@ def rule_cachekey(ctx: Ctx, rule: str = "C07.cachekey"):
                           "bound methods are told apart from plain functions on the callable itself, not on what it wraps", mk.key,
                           f"isinstance({show(t.args[0])}, MethodType)")
     rep.floor(rule, "bound-method tests in _make_key", n_b, 1)
+    # what the cached function reads from the callable decides the result: an explicit `__signature__` is a per-object attribute
+    # (closures of one factory share name and code and may each declare their own), so either the key covers it or such
+    # callables are not served from the memo at all
+    fc = ctx.p.find_fn("SignatureAdapter.from_callable")
+    reads_sig = fc is not None and any((isinstance(x, ast.Attribute) and x.attr == "__signature__") or
+                                       (isinstance(x, ast.Constant) and x.value == "__signature__") for x in own_nodes(fc.node))
+    if reads_sig:
+        in_key = any((isinstance(x, ast.Attribute) and x.attr == "__signature__") or (isinstance(x, ast.Constant) and x.value == "__signature__")
+                     for x in own_nodes(mk.node))
+        bypass = False
+        for p in ctx.paths(cached, inline=None, exc_edges="none"):
+            if p.kind != "return":
+                continue
+            tests = [b for b in p.of("branch") if "__signature__" in xshow(b.term, p.events) and b.x["taken"] is True]
+            if not tests:
+                continue
+            memo_read = any(show(c_.term.func) in ("cache_get", "cache.get") or ".get" in show(c_.term.func) for c_ in p.calls() if c_.idx > tests[0].idx)
+            direct = [c_ for c_ in p.calls() if c_.idx > tests[0].idx and show(c_.term.func) == sc.params[0]]
+            if direct and not memo_read and show(p.value) == f"$c{direct[-1].idx}":
+                bypass = True
+        rep.check(in_key or bypass, rule, cached.loc(), "a callable that declares its own `__signature__` is adapted from that signature: the memo key "
+                  "covers it, or such callables bypass the memo (two closures of one factory share name and code, not `__signature__`)", cached.key,
+                  "explicit __signature__ not covered by the memo key")
 
 
 def _resolution_pipeline(ctx):
